@@ -44,3 +44,16 @@ def c15_reference_inside_literal():
         raised = f"{type(e).__name__}: {e}"
     bad = got != [("$v1",)] or raised is not None
     return bad, f"select '$v1' returned {got!r} (text inside a string literal was rewritten); select 'costs $5' -> {raised}"
+
+
+def c03_use_schema_without_database():
+    from fakesnow.instance import FakeSnow
+
+    conn = FakeSnow().connect()
+    cur = conn.cursor()
+    try:
+        cur.execute("use schema s1")
+        return True, "use schema s1 without a current database succeeded"
+    except Exception as e:  # noqa: BLE001
+        errno = getattr(e, "errno", None)
+        return errno != 90105, f"use schema s1 without a current database raised {type(e).__name__} errno={errno} sqlstate={getattr(e, 'sqlstate', None)} (Snowflake: 90105/22000)"
